@@ -130,6 +130,8 @@ type Exec struct {
 	logSeg      string
 	logCount    map[accessKey]int
 	lowerIdx    map[int]int
+	callSites   []ssa.Instruction // call-site instructions of the active frames
+	lastInstr   ssa.Instruction // the instruction being executed (position of builtin accesses in the C11 log)
 	deadline    time.Time
 	varBounds   map[int]ival
 	ivMemo      map[int]ival
@@ -628,6 +630,7 @@ const (
 
 func (e *Exec) tick(instr ssa.Instruction) {
 	e.steps++
+	e.lastInstr = instr
 	if e.Cfg.MaxSteps > 0 && e.steps > int64(e.Cfg.MaxSteps) {
 		panic(boundExhausted{fmt.Sprintf("path instruction budget %d", e.Cfg.MaxSteps)})
 	}
@@ -906,7 +909,8 @@ func (e *Exec) callSSAraw(caller *frame, fn *ssa.Function, args []Value, env []V
 	if e.depth > 400 {
 		panic(boundExhausted{"call depth 400"})
 	}
-	defer func() { e.depth-- }()
+	e.callSites = append(e.callSites, e.lastInstr)
+	defer func() { e.depth--; e.callSites = e.callSites[:len(e.callSites)-1] }()
 	fr.env = make(map[ssa.Value]Value, 16)
 	fr.block = fn.Blocks[0]
 	fr.locals = make([]Value, len(fn.Locals))
@@ -1473,7 +1477,13 @@ func (e *Exec) logAccess(p *Value, write bool, instr ssa.Instruction) {
 	}
 	// locals of the current frames are thread-private: only heap cells, globals and
 	// cells reachable from them matter; keep at most a few events per instruction
-	key := accessKey{instr, write, e.curGo}
+	// the quota is per instruction *and calling context* (three innermost call sites): a
+	// shared helper (bufio's copy, ReadFull) reached from a new place gets a fresh quota
+	var ctx [3]ssa.Instruction
+	for i := 0; i < 3 && i < len(e.callSites); i++ {
+		ctx[i] = e.callSites[len(e.callSites)-1-i]
+	}
+	key := accessKey{instr, write, e.curGo, ctx}
 	if e.logCount == nil {
 		e.logCount = map[accessKey]int{}
 	}
@@ -1488,6 +1498,7 @@ type accessKey struct {
 	instr ssa.Instruction
 	write bool
 	g     int
+	ctx   [3]ssa.Instruction
 }
 
 func (e *Exec) logSync(kind string, a, b int) {
